@@ -3997,6 +3997,15 @@ IW_EXPORT iwrc iwkv_cursor_seth(
   struct sblk *sblk = cur->cn;
 
   API_DB_WLOCK(db, rci);
+  if (!sblk->kvblk) {
+    uint8_t *mm;
+    IWFS_FSM *fsm = &db->iwkv->fsm;
+    rc = fsm->acquire_mmap(fsm, 0, &mm, 0);
+    RCGO(rc, finish);
+    rc = _sblk_loadkvblk_mm(lx, sblk, mm);
+    fsm->release_mmap(fsm);
+    RCGO(rc, finish);
+  }
   if (ph) {
     uint8_t *mm;
     struct iwkv_val key, oldval;
